@@ -734,7 +734,7 @@ HelperCases(u) ==
 (***************************************************************************)
 CtxPktLens == IF Deep THEN << 0, 1, 7, 8, 9, 64, 2, 15, 16, 17, 63, 65, 1500 >> ELSE << 0, 1, 7, 8, 9, 64 >>
 OffPairs0 == << <<0, 8>>, <<8, 0>>, <<64, 80>>, <<80, 64>>, <<0, 4096>>, <<4096, 8>>, <<16, 24>>, <<65536, 8>>, <<8, 16>> >>
-OffPairs == IF Deep THEN OffPairs0 \o << <<24, 16>>, <<0, 65536>>, <<4088, 4096>>, <<1000000, 0>>, <<7, 15>>, <<15, 7>>, <<0, 9>>, <<100, 200>> >> ELSE OffPairs0
+OffPairs == IF Deep THEN OffPairs0 \o << <<24, 16>>, <<0, 65536>>, <<4088, 4096>>, <<70000, 0>>, <<7, 15>>, <<15, 7>>, <<0, 9>>, <<100, 200>> >> ELSE OffPairs0
 
 \* probes: 1 r1 ; 2 *(r1+do) ; 3 *(r1+deo) ; 4 *(r1+deo) - *(r1+do) ; 5 ldabsb 0 ; 6 ldabsb len-1 ;
 \*         7 stb [r10-1] ; 8 stb [r10-512] ; 9 stb [r10+0] ; 10 stb [r10-513] ; 11 ldxb [r1+0] ; 12 ldxb [r1+len-1]
